@@ -60,7 +60,7 @@ def bounded_checks(tier, seed):
     with a seeded subset of the fields resolving through coroutines that finish after 0-3 event-loop
     turns; the response must equal the reference executor's, which knows nothing of time."""
     import json
-    code = ("import json\nfrom props.C02_ref import search_async\n"
+    code = ("import json, warnings\nwarnings.simplefilter('ignore')\nfrom props.C02_ref import search_async\n"
             f"r = search_async(seed={int(seed)}, thorough={tier == 'thorough'!r})\n"
             "print('BOUNDED ' + json.dumps(r, default=str))")
     rc, outp = run_native(code, timeout=1500)
@@ -174,7 +174,120 @@ print("TYPERES " + json.dumps(bad))
 '''
 
 
+SERIAL_MUTATION = r'''
+import asyncio, inspect, itertools, json
+from graphql import (GraphQLField, GraphQLInt, GraphQLNonNull, GraphQLObjectType, GraphQLSchema, execute, parse)
+bad = None
+async def main():
+    global bad
+    for broken_ticks, slow_ticks, cleanup_ticks in itertools.product((0, 1, 2), (3, 5), (0, 1, 3)):
+        log = []
+        def resolve_broken(_s, _i):
+            async def run():
+                for _ in range(broken_ticks):
+                    await asyncio.sleep(0)
+                raise RuntimeError("broken")
+            return run()
+        def resolve_slow(_s, _i):
+            async def run():
+                try:
+                    for _ in range(slow_ticks):
+                        await asyncio.sleep(0)
+                    return 7
+                except asyncio.CancelledError:
+                    for _ in range(cleanup_ticks):
+                        await asyncio.sleep(0)
+                    raise
+                finally:
+                    log.append("slow:end")
+            return run()
+        def resolve_second(_s, _i):
+            log.append("second:start")
+            return 2
+        first = GraphQLObjectType("First", {"broken": GraphQLField(GraphQLNonNull(GraphQLInt), resolve=resolve_broken),
+                                            "slow": GraphQLField(GraphQLInt, resolve=resolve_slow)})
+        schema = GraphQLSchema(GraphQLObjectType("Query", {"q": GraphQLField(GraphQLInt)}),
+                               GraphQLObjectType("Mutation", {"first": GraphQLField(first, resolve=lambda *_: {}),
+                                                              "second": GraphQLField(GraphQLInt, resolve=resolve_second)}))
+        r = execute(schema, parse("mutation { first { broken slow } second }"))
+        if inspect.isawaitable(r):
+            r = await r
+        for _ in range(8):
+            await asyncio.sleep(0)
+        if r.data != {"first": None, "second": 2}:
+            bad = {"ticks": [broken_ticks, slow_ticks, cleanup_ticks], "observed": f"data {r.data!r}"}
+            return
+        if "slow:end" not in log or log.index("slow:end") > log.index("second:start"):
+            bad = {"mutation": "mutation { first { broken slow } second }",
+                   "ticks (broken fails after, slow needs, cleanup after cancel)": [broken_ticks, slow_ticks, cleanup_ticks],
+                   "observed": f"order of events {log!r}: the resolver of `second` started before the cancelled sibling "
+                               "of the failed non-null field had settled"}
+            return
+asyncio.run(main())
+print("SERIAL " + json.dumps(bad))
+'''
+
+ASYNC_RESOLVE_TYPE = r'''
+import asyncio, inspect, itertools, json
+from graphql import (GraphQLField, GraphQLInt, GraphQLList, GraphQLObjectType, GraphQLSchema, GraphQLString,
+                     GraphQLInterfaceType, GraphQLUnionType, execute, parse)
+bad = None
+async def main():
+    global bad
+    for abstract, async_rt, async_field in itertools.product(("union", "interface"), (False, True), (False, True)):
+        def rt(value, info, _t):
+            if async_rt:
+                async def f():
+                    await asyncio.sleep(0)
+                    return value["t"]
+                return f()
+            return value["t"]
+        def res_x(value, info):
+            if async_field:
+                async def f():
+                    return value["x"]
+                return f()
+            return value["x"]
+        if abstract == "interface":
+            ab = GraphQLInterfaceType("Ab", {"x": GraphQLField(GraphQLInt)}, resolve_type=rt)
+            types = [GraphQLObjectType(n, {"x": GraphQLField(GraphQLInt, resolve=res_x)}, interfaces=[ab]) for n in ("A", "B")]
+        else:
+            types = [GraphQLObjectType(n, {"x": GraphQLField(GraphQLInt, resolve=res_x)}) for n in ("A", "B")]
+            ab = GraphQLUnionType("Ab", types, resolve_type=rt)
+        schema = GraphQLSchema(GraphQLObjectType("Query", {"one": GraphQLField(ab), "many": GraphQLField(GraphQLList(ab))}),
+                               types=types)
+        root = {"one": {"t": "B", "x": 1}, "many": [{"t": "A", "x": 2}, {"t": "B", "x": 3}, None]}
+        q = "{ one { __typename ... on A { x } ... on B { x } } many { __typename ... on A { x } ... on B { x } } }"
+        r = execute(schema, parse(q), root)
+        if inspect.isawaitable(r):
+            r = await r
+        want = {"one": {"__typename": "B", "x": 1},
+                "many": [{"__typename": "A", "x": 2}, {"__typename": "B", "x": 3}, None]}
+        if r.data != want or r.errors:
+            bad = {"abstract type": abstract, "resolve_type awaitable": async_rt, "sub-field awaitable": async_field,
+                   "observed": f"data {r.data!r} errors {[e.message for e in r.errors or []]!r}; expected {want!r}"}
+            return
+asyncio.run(main())
+print("ASYNCRT " + json.dumps(bad))
+'''
+
+
 def native_checks(tier, seed):
+    rc2, outp2 = run_native(SERIAL_MUTATION)
+    rc3, outp3 = run_native(ASYNC_RESOLVE_TYPE)
+    extra = [
+        {"id": "C03/native/serial-mutation-waits-for-cancelled-siblings", "failed": "SERIAL null" not in outp2,
+         "output": outp2[-800:],
+         "input": "mutation { first { broken slow } second }: broken (Int!) fails after 0-2 loop turns, slow needs 3/5 turns and "
+                  "0-3 turns of cleanup when cancelled (18 schedules): `second` must not start before slow has settled"},
+        {"id": "C03/native/resolve-type-sync-or-awaitable-gives-the-same-response", "failed": "ASYNCRT null" not in outp3,
+         "output": outp3[-800:],
+         "input": "union / interface whose resolve_type is synchronous or a coroutine x sub-fields synchronous or awaitable, "
+                  "single value and list: the response must not depend on the mix"}]
+    return extra + _native_checks1(tier, seed)
+
+
+def _native_checks1(tier, seed):
     rc1, outp1 = run_native(TYPE_RESOLUTION)
     tr = {"id": "C03/native/type-resolution-independent-of-which-is_type_of-are-async",
           "failed": "TYPERES null" not in outp1, "output": outp1[-800:],
